@@ -221,6 +221,10 @@ def run(chk):
         _evalfns = [v.defs[u] for u, r in _roles.items() if r == "evaluation" and u in v.defs]
         from rules import c04 as _c04
         _c15.check_alias_safe_gates(_c04._Sub(chk, "R5"), v, _E, _evalfns)
+        # ---------------- R6 the plaintext clause rests on the sign bootstrap every gate calls: C04's chain rules for the FFT path
+        # (rounded phase, rotated test vector, rotation loop, extraction, key switch), re-evaluated here
+        from rules import c04 as _c04b
+        _c04b.evaluate(_c04b._Sub(chk, "R6"), v, ("_FFT",))
         # ---------------- R4 the key-switching-key noise is recentred (the mean bound relies on it: without it every gate output
         # under one key carries the same offset  -(number of selected rows) x (average row noise))
         from rules import c04, c07
